@@ -5,9 +5,7 @@ import (
 	"fmt"
 	"os"
 	"path/filepath"
-	"sort"
 	"strings"
-	"sync"
 	"testing"
 	"time"
 
@@ -203,25 +201,10 @@ func workDir(t *testing.T) string {
 	return t.TempDir()
 }
 
-var (
-	retryMu      sync.Mutex
-	retryReasons []string
-)
-
 func runWithRetry(c casePlan, dir string) (caseResult, bool) {
 	res := runCase(c, dir)
 	if res.harnessErr != "" || (res.violation != "" && res.liveness) {
 		// a missed liveness bound or an environment error is retried once before it counts
-		why := res.harnessErr
-		if why == "" {
-			why = res.violation
-		}
-		if len(why) > 300 {
-			why = why[:300]
-		}
-		retryMu.Lock()
-		retryReasons = append(retryReasons, why)
-		retryMu.Unlock()
 		sig := "harness"
 		if res.harnessErr == "" {
 			sig = strings.TrimPrefix(strings.Fields(res.violation)[0], "SIG=C13/")
@@ -269,7 +252,6 @@ func TestRelay(t *testing.T) {
 	recRelay.Extra("dns_queries_answered", tcpsvc.QueriesOK.Load())
 	recRelay.Extra("dns_queries_nxdomain", tcpsvc.QueriesNX.Load())
 	recRelay.Extra("unreachable_kind_generated", unreachableOK)
-	recRelay.Extra("first_try_failures_retried", retryReasons)
 }
 
 // TestReplayRelay re-runs a journaled plan ($VERIF_REPLAY), e.g. one that crashed the process.
@@ -293,13 +275,4 @@ func TestReplayRelay(t *testing.T) {
 	if res.violation != "" {
 		t.Fatalf("%s\n  case: %s", res.violation, js(c))
 	}
-}
-
-func sortedKeys(m map[string]want) []string {
-	ks := make([]string, 0, len(m))
-	for k := range m {
-		ks = append(ks, k)
-	}
-	sort.Strings(ks)
-	return ks
 }
